@@ -331,7 +331,7 @@ theorem pcore_rel (env : Env) (lk : Lookup) (hlk : ∀ r s a g gr gs, lk r s a =
     fun r s c hm hc => by rw [ren_id]; exact hvw r s c hm hc
   have := core_rel (RE := REl id) (RS := fun _ _ => True) (closed2_REl id) env env (pureRec v) (pureRec w) root root n
     scope scope [] [] {} {} trivial (lk root scope n.arg) (lk root scope n.arg) false
-    (REl_id_refl _) (fun _ => REl_id_refl _) (REl_id_refl _) (fun _ _ => rfl) hinc
+    (REl_id_refl _) (fun _ _ => REl_id_refl _) (fun _ => REl_id_refl _) (fun _ _ _ => rfl) hinc
     (fun c hc _ _ _ => ⟨hrel _ _ _ (by obtain ⟨f, hf, hcf⟩ := hc; exact called_not_mod hf hcf), trivial⟩)
     (fun _ => by
       cases hl : lk root scope n.arg with
@@ -467,7 +467,7 @@ theorem val_fold (root : Mod) (scope : List Stmt) (n : Stmt) (hn : isModKw n = f
       | simp_all
   have := core_rel (RE := REl id) (RS := fun _ _ => True) (closed2_REl id) env env (pureRec (val env lk))
     (pureRec (pent env lk F)) root root n scope scope [] [] {} {} trivial (lk root scope n.arg) (lk root scope n.arg) false
-    (REl_id_refl _) (fun _ => REl_id_refl _) (REl_id_refl _) (fun _ _ => rfl) hinc
+    (REl_id_refl _) (fun _ _ => REl_id_refl _) (fun _ => REl_id_refl _) (fun _ _ _ => rfl) hinc
     (fun c hc _ _ _ => ⟨fun hcl => by
         obtain ⟨f, hf, hcf⟩ := hc
         rw [ren_id]
